@@ -73,6 +73,9 @@ RULE = ("random Bayesian networks (random DAGs of every density, chains, forks, 
         "variables with > 256 states do not fit the exact brute-force oracle (cardinalities 1..4 here; argmax/assignment are "
         "proved for every shape); [Q] CPDs typed in thousandths whose columns sum to 0.995 / 1.005 (all columns of one CPD "
         "alike, so pruning rescales by a constant), judged against the product of the tables as given; "
+        "[near ties] S -> X, S -> Y with evidence: best and runner-up posterior differing by a relative margin 1e-5 .. 2e-9 "
+        "(exact rationals of the floats; the 1e-9 acceptance band is never at the knife edge), runner-up earlier and later "
+        "in index order, exact ties separately, both engines; "
         "[R] virtual evidence x no-variables x every engine, virtual evidence x evidence on roots, virtual evidence x "
         "explicit order containers, torch x virtual evidence, sessions mixing max_calibrate / rejected calls / virtual "
         "evidence, predict x categorical x BP")
@@ -386,6 +389,8 @@ def cases(tier, seed):
     for _ in range(30 if tier == "quick" else 300):
         out.append(make_extreme_bn(rng, gen_bn(rng, 5, 200)))
         out.append(make_extreme_mn(rng, gen_mn(rng, 4)))
+    for i in range(36 if tier == "quick" else 300):
+        out.append(gen_near(rng, runner_first=(i % 3 != 2)))
     for _ in range(24 if tier == "quick" else 240):
         out.append(make_decimal_bn(rng, gen_bn(rng, 5, 200)))
     # the torch backend for a share of the single-query, primitive and session cases
@@ -603,6 +608,46 @@ def gen_mid(rng, n=None, shape=None):
             "vstyle": vstyle, "vnames": names, "far": [perm[v] for v in far], "root": perm[0],
             "states": [state_specs(rng, 2, rng.choice(["int", "intperm", "str", "bool"])) for _ in range(n)],
             "qseed": rng.randint(0, 10 ** 9)}
+
+
+def gen_near(rng, eps=None, runner_first=None, cs=None):
+    """S -> X, S -> Y with evidence on X and Y: two states of S whose posteriors differ by a relative margin eps in
+    {1e-5 .. 2e-9} (far above double round-off, at or below np.isclose's default tolerances), the runner-up either
+    EARLIER or LATER in index order; eps = 0 gives an exact tie.  All numbers are the exact rationals of the floats."""
+    eps = rng.choice([1e-5, 3e-6, 1e-6, 1e-7, 1e-8, 2e-9, 0.0]) if eps is None else eps
+    runner_first = (rng.random() < 0.6) if runner_first is None else runner_first
+    cs = cs or rng.choice([2, 2, 3])
+    a, b_ = (0, 1) if cs == 2 else tuple(sorted(rng.sample(range(3), 2)))
+    win, lose = (b_, a) if runner_first else (a, b_)          # the loser comes first in index order iff runner_first
+    prior = [0.5, 0.5] if cs == 2 else [0.25, 0.25, 0.25]
+    if cs == 3:
+        prior = [0.375 if i in (a, b_) else 0.25 for i in range(3)]
+    base = rng.choice([(0.3, 0.7), (0.25, 0.5), (0.4, 0.6), (0.125, 0.75)])
+    lx = [0.0625] * cs
+    ly = [0.0625] * cs
+    lx[win], ly[win] = base[0], base[1] * (1.0 + eps)
+    lx[lose], ly[lose] = base[1], base[0]
+    ex, ey = rng.randrange(2), rng.randrange(2)
+
+    def rows(l, e):
+        r = [[None] * cs, [None] * cs]
+        for j in range(cs):
+            r[e][j] = jf(Fraction(l[j]))
+            r[1 - e][j] = jf(Fraction(1.0 - l[j]))
+        return r
+    cpds = [{"v": 0, "pa": [], "rows": [[jf(Fraction(x))] for x in prior]},
+            {"v": 1, "pa": [0], "rows": rows(lx, ex)}, {"v": 2, "pa": [0], "rows": rows(ly, ey)}]
+    rng.shuffle(cpds)
+    edges = [[0, 1], [0, 2]]
+    rng.shuffle(edges)
+    nodes = [0, 1, 2]
+    rng.shuffle(nodes)
+    vstyle = rng.choice(["str", "int", "substr"])
+    return {"kind": "near", "n": 3, "nodes": nodes, "edges": edges, "cards": [cs, 2, 2], "cpds": cpds, "shape": "near",
+            "vstyle": vstyle, "vnames": name_specs(rng, 3, vstyle), "ev": [[1, ex], [2, ey]], "eps": eps,
+            "runner_first": bool(runner_first),
+            "states": [state_specs(rng, c_, rng.choice(["int", "intperm", "str"])) for c_ in [cs, 2, 2]],
+            "qseed": rng.randint(0, 10 ** 9), "inexact": True}
 
 
 def gen_update(rng, nmax, space):
@@ -2015,6 +2060,36 @@ def run_mid(case, drv):
                                                      case["qseed"]]), tags=tags)
 
 
+def run_near(case, drv):
+    """near-tie posteriors: the strictly larger one must win in BOTH engines, wherever it sits in index order"""
+    from pgmpy.inference import VariableElimination, BeliefPropagation
+    net = Net(case)
+    bn, fs = build_bn(net)
+    rng = random.Random(case["qseed"] + 3)
+    ev_all = {v: s_ for v, s_ in case["ev"]}
+    tags = ["near eps=%g runner-up-%s" % (case["eps"], "earlier" if case["runner_first"] else "later")]
+    for Q, E in ([0], [1, 2]), ([0, 2], [1]), ([1, 0], [2]):
+        ev = {v: ev_all[v] for v in E}
+        J = Judge(drv, net, fs, Q, ev, True)
+        tags.append("near ties=%s" % ("unique" if J.unique else ("exact" if J.exact_ties > 1 else "within-1e-9")))
+        evn = {net.vn[v]: net.st[v][s_] for v, s_ in ev.items()}
+        Qn = [net.vn[v] for v in Q]
+        for nm, call in (("BP", lambda: BeliefPropagation(bn).map_query(variables=list(Qn), evidence=dict(evn),
+                                                                         show_progress=False)),
+                         ("VE", lambda: VariableElimination(bn).map_query(variables=list(Qn), evidence=dict(evn),
+                                                                          elimination_order=rng.choice(HEURISTICS + [None]),
+                                                                          show_progress=False))):
+            res = call()
+            b = J.judge(res, "near-tie (relative margin %g, runner-up %s in index order): %s" %
+                        (case["eps"], "earlier" if case["runner_first"] else "later", nm), strict_ties=False)
+            tags.append("near " + nm)
+            if b and b != "near":
+                b["kind"] = b["kind"] + ":near-tie"
+                return b
+    return ok(nontrivial=True, key=common.canon_key(["near", case["cpds"], case["ev"], case["vnames"], case["states"]]),
+              tags=tags)
+
+
 def run_wide(case, drv):
     from pgmpy.inference import VariableElimination, BeliefPropagation
     net = Net(case)
@@ -2077,6 +2152,8 @@ def run_case(case, drv):
         return run_wide(case, drv)
     if case["kind"] == "mid":
         return run_mid(case, drv)
+    if case["kind"] == "near":
+        return run_near(case, drv)
     if case["kind"] == "bn":
         return run_bn(case, drv)
     if case["kind"] == "all":
